@@ -62,6 +62,52 @@ type PropCfg struct {
 	Stub        []string          `json:"components_stub"`
 	Assumptions []string          `json:"assumptions"`
 	Params      map[string]string `json:"params"`
+	// Parts are additional (package, harness) pairs that serve the same property; the budget is shared.
+	Parts []Part `json:"parts"`
+}
+
+type Part struct {
+	Pkg     string  `json:"pkg"`
+	Harness string  `json:"harness"`
+	Share   float64 `json:"share"` // fraction of the exploration budget (default: equal shares)
+}
+
+// parts returns all (pkg, harness) pairs of a property, the primary one first.
+func (pc *PropCfg) parts() []Part {
+	out := []Part{{Pkg: pc.Pkg, Harness: pc.Harness}}
+	out = append(out, pc.Parts...)
+	tot := 0.0
+	for i := range out {
+		if out[i].Share <= 0 {
+			out[i].Share = 1
+		}
+		tot += out[i].Share
+	}
+	for i := range out {
+		out[i].Share /= tot
+	}
+	return out
+}
+
+func (pc *PropCfg) pkgs() []string {
+	var l []string
+	seen := map[string]bool{}
+	for _, p := range pc.parts() {
+		if !seen[p.Pkg] {
+			seen[p.Pkg] = true
+			l = append(l, p.Pkg)
+		}
+	}
+	return l
+}
+
+func (pc *PropCfg) pkgOf(harness string) string {
+	for _, p := range pc.parts() {
+		if p.Harness == harness {
+			return p.Pkg
+		}
+	}
+	return pc.Pkg
 }
 
 type Violation struct {
@@ -551,8 +597,17 @@ func check(id, tier string, verbose bool) int {
 			kn = append(kn, k)
 		}
 	}
-	dir := build([]string{pc.Pkg}, verbose)
-	bin := filepath.Join(dir, pkgBinName(pc.Pkg))
+	dir := build(pc.pkgs(), verbose)
+	parts := pc.parts()
+	binOf := func(harness string) string { return filepath.Join(dir, pkgBinName(pc.pkgOf(harness))) }
+	// seeds of part i start at seed*1e6 + i*250000
+	partOfSeed := func(sd int64) Part {
+		i := int((sd % 1_000_000) / 250_000)
+		if i < 0 || i >= len(parts) {
+			i = 0
+		}
+		return parts[i]
+	}
 	buildS := time.Since(t0).Seconds()
 
 	tc := pc.Quick
@@ -583,60 +638,65 @@ func check(id, tier string, verbose bool) int {
 	}
 	a := newAgg()
 	var mu sync.Mutex
-	next := int64(0)
-	deadline := time.Now().Add(time.Duration(tc.BudgetS * float64(time.Second)))
 	var crashes []foundViolation
 	var troubles []string
-	var wg sync.WaitGroup
 	stop := false
-	for w := 0; w < nworkers; w++ {
-		wg.Add(1)
-		go func() {
-			defer wg.Done()
-			for {
-				mu.Lock()
-				if stop || time.Now().After(deadline) || (tc.MaxRuns > 0 && int(next) >= tc.MaxRuns) {
+	for pi, part := range parts {
+		part := part
+		bin := binOf(part.Harness)
+		base := seed*1_000_000 + int64(pi)*250_000
+		next := int64(0)
+		deadline := time.Now().Add(time.Duration(tc.BudgetS * part.Share * float64(time.Second)))
+		var wg sync.WaitGroup
+		for w := 0; w < nworkers; w++ {
+			wg.Add(1)
+			go func() {
+				defer wg.Done()
+				for {
+					mu.Lock()
+					if stop || time.Now().After(deadline) || (tc.MaxRuns > 0 && int(next) >= tc.MaxRuns) {
+						mu.Unlock()
+						return
+					}
+					start := base + next
+					next += int64(tc.ChunkRuns)
+					a.workerProcs++
 					mu.Unlock()
-					return
-				}
-				start := seed*1_000_000 + next
-				next += int64(tc.ChunkRuns)
-				a.workerProcs++
-				mu.Unlock()
-				remaining := time.Until(deadline).Seconds()
-				j := job{Harness: pc.Harness, Prop: id, Tier: tier, SeedStart: start, SeedCount: int64(tc.ChunkRuns),
-					BudgetS: remaining, Known: kn, ReplayDir: replayDir, Params: pc.Params, Samples: 1}
-				wo := runWorker(bin, j, scratch, 0, time.Duration(remaining+180)*time.Second)
-				mu.Lock()
-				for _, l := range wo.lines {
-					a.add(id, kn, l, 3)
-				}
-				if !wo.done {
-					// the worker died: the run after the last reported one is the culprit
-					culprit := start + int64(len(wo.lines))
-					sig, isFabio := classifyCrash(wo.stderr)
-					if isFabio {
-						crashes = append(crashes, foundViolation{v: Violation{Class: "crash", Sig: sig, Msg: tail(wo.stderr, 4000)}, seed: culprit})
-					} else {
-						troubles = append(troubles, fmt.Sprintf("worker died at seed %d: %v\n%s", culprit, wo.exitErr, tail(wo.stderr, 3000)))
+					remaining := time.Until(deadline).Seconds()
+					j := job{Harness: part.Harness, Prop: id, Tier: tier, SeedStart: start, SeedCount: int64(tc.ChunkRuns),
+						BudgetS: remaining, Known: kn, ReplayDir: replayDir, Params: pc.Params, Samples: 1}
+					wo := runWorker(bin, j, scratch, 0, time.Duration(remaining+180)*time.Second)
+					mu.Lock()
+					for _, l := range wo.lines {
+						a.add(id, kn, l, 3)
 					}
-					if len(crashes)+len(troubles) > 3 {
-						stop = true
-					}
-				}
-				if len(a.violations) > 0 {
-					// stop early once an unknown violation has a replay file
-					for _, fv := range a.violations {
-						if fv.replay != "" {
+					if !wo.done {
+						// the worker died: the run after the last reported one is the culprit
+						culprit := start + int64(len(wo.lines))
+						sig, isFabio := classifyCrash(wo.stderr)
+						if isFabio {
+							crashes = append(crashes, foundViolation{v: Violation{Class: "crash", Sig: sig, Msg: tail(wo.stderr, 4000)}, seed: culprit})
+						} else {
+							troubles = append(troubles, fmt.Sprintf("worker died at seed %d: %v\n%s", culprit, wo.exitErr, tail(wo.stderr, 3000)))
+						}
+						if len(crashes)+len(troubles) > 3 {
 							stop = true
 						}
 					}
+					if len(a.violations) > 0 {
+						// stop early once an unknown violation has a replay file
+						for _, fv := range a.violations {
+							if fv.replay != "" {
+								stop = true
+							}
+						}
+					}
+					mu.Unlock()
 				}
-				mu.Unlock()
-			}
-		}()
+			}()
+		}
+		wg.Wait()
 	}
-	wg.Wait()
 
 	// process crashes -> replay-by-seed files
 	for _, c := range crashes {
@@ -652,8 +712,9 @@ func check(id, tier string, verbose bool) int {
 		}
 		key := c.v.Class + "|" + c.v.Sig
 		if a.violations[key] == nil {
-			p := filepath.Join(replayDir, fmt.Sprintf("%s-%s-%d.json", id, pc.Harness, c.seed))
-			rf := map[string]any{"property": id, "spec": map[string]any{"prop": id, "harness": pc.Harness, "tier": tier, "seed": c.seed, "params": pc.Params},
+			hn := partOfSeed(c.seed).Harness
+			p := filepath.Join(replayDir, fmt.Sprintf("%s-%s-%d.json", id, hn, c.seed))
+			rf := map[string]any{"property": id, "spec": map[string]any{"prop": id, "harness": hn, "tier": tier, "seed": c.seed, "params": pc.Params},
 				"expect": c.v, "shrunk": false, "note": "the process crashed; replay by seed"}
 			b, _ := json.MarshalIndent(rf, "", " ")
 			os.MkdirAll(replayDir, 0o755)
@@ -679,21 +740,23 @@ func check(id, tier string, verbose bool) int {
 		}
 		var rmu sync.Mutex
 		var rwg sync.WaitGroup
-		parts := 4
-		for p := 0; p < parts; p++ {
-			var seeds []int64
-			for i := p; i < len(pick); i += parts {
-				seeds = append(seeds, pick[i])
-			}
-			if len(seeds) == 0 {
-				continue
-			}
+		type grp struct {
+			harness string
+			slot    int
+		}
+		groups := map[grp][]int64{}
+		for i, sd := range pick {
+			g := grp{partOfSeed(sd).Harness, i % 4}
+			groups[g] = append(groups[g], sd)
+		}
+		for g, seeds := range groups {
+			g, seeds := g, seeds
 			rwg.Add(1)
-			gmp := []int{1, 4, 2, 1}[p]
+			gmp := []int{1, 4, 2, 1}[g.slot]
 			go func() {
 				defer rwg.Done()
-				j := job{Harness: pc.Harness, Prop: id, Tier: tier, Seeds: seeds, Known: kn, Params: pc.Params}
-				wo := runWorker(bin, j, scratch, gmp, 10*time.Minute)
+				j := job{Harness: g.harness, Prop: id, Tier: tier, Seeds: seeds, Known: kn, Params: pc.Params}
+				wo := runWorker(binOf(g.harness), j, scratch, gmp, 10*time.Minute)
 				rmu.Lock()
 				defer rmu.Unlock()
 				for _, l := range wo.lines {
@@ -723,15 +786,16 @@ func check(id, tier string, verbose bool) int {
 		fv := a.violations[k]
 		if fv.replay == "" {
 			// no replay file was produced (limit per worker): replay by seed
-			p := filepath.Join(replayDir, fmt.Sprintf("%s-%s-%d.json", id, pc.Harness, fv.seed))
-			rf := map[string]any{"property": id, "spec": map[string]any{"prop": id, "harness": pc.Harness, "tier": tier, "seed": fv.seed, "params": pc.Params},
+			hn := partOfSeed(fv.seed).Harness
+			p := filepath.Join(replayDir, fmt.Sprintf("%s-%s-%d.json", id, hn, fv.seed))
+			rf := map[string]any{"property": id, "spec": map[string]any{"prop": id, "harness": hn, "tier": tier, "seed": fv.seed, "params": pc.Params},
 				"expect": fv.v, "shrunk": false}
 			b, _ := json.MarshalIndent(rf, "", " ")
 			os.MkdirAll(replayDir, 0o755)
 			os.WriteFile(p, b, 0o644)
 			fv.replay = p
 		}
-		ok, why := replayOnce(bin, pc, fv.replay, scratch)
+		ok, why := replayOnce(dir, pc, fv.replay, scratch)
 		if ok {
 			conf = append(conf, confirmed{fv, fv.replay})
 		} else {
@@ -810,7 +874,7 @@ func sortedKeys(m map[string]int) []string {
 }
 
 // replayOnce executes a replay file in a fresh process and reports whether the expected violation recurred.
-func replayOnce(bin string, pc *PropCfg, path, scratch string) (bool, string) {
+func replayOnce(dir string, pc *PropCfg, path, scratch string) (bool, string) {
 	b, err := os.ReadFile(path)
 	if err != nil {
 		return false, err.Error()
@@ -818,17 +882,23 @@ func replayOnce(bin string, pc *PropCfg, path, scratch string) (bool, string) {
 	var rf struct {
 		Property string `json:"property"`
 		Spec     struct {
-			Seed   int64    `json:"seed"`
-			Replay bool     `json:"replay"`
-			Tier   string   `json:"tier"`
-			Gen    []uint32 `json:"gen"`
+			Seed    int64    `json:"seed"`
+			Replay  bool     `json:"replay"`
+			Tier    string   `json:"tier"`
+			Harness string   `json:"harness"`
+			Gen     []uint32 `json:"gen"`
 		} `json:"spec"`
 		Expect Violation `json:"expect"`
 	}
 	if err := json.Unmarshal(b, &rf); err != nil {
 		return false, err.Error()
 	}
-	j := job{Harness: pc.Harness, Prop: pc.ID, Tier: rf.Spec.Tier, Replay: path, Params: pc.Params}
+	harness := rf.Spec.Harness
+	if harness == "" {
+		harness = pc.Harness
+	}
+	bin := filepath.Join(dir, pkgBinName(pc.pkgOf(harness)))
+	j := job{Harness: harness, Prop: pc.ID, Tier: rf.Spec.Tier, Replay: path, Params: pc.Params}
 	if !rf.Spec.Replay {
 		// replay by seed
 		j.Replay = ""
@@ -924,11 +994,11 @@ func cmdReplay(path string) int {
 	if pc == nil {
 		die(2, "replay file names unknown property %q", rf.Property)
 	}
-	dir := build([]string{pc.Pkg}, false)
+	dir := build(pc.pkgs(), false)
 	scratch, _ := os.MkdirTemp(filepath.Join(verifDir, ".work"), "replay-")
 	defer os.RemoveAll(scratch)
 	abs, _ := filepath.Abs(path)
-	ok, why := replayOnce(filepath.Join(dir, pkgBinName(pc.Pkg)), pc, abs, scratch)
+	ok, why := replayOnce(dir, pc, abs, scratch)
 	if ok {
 		fmt.Printf("VIOLATION property=%s replay=%s\n", rf.Property, abs)
 		return 1
@@ -951,51 +1021,54 @@ func cmdSelftest(ids []string) int {
 		if pc == nil {
 			die(2, "unknown property %s", id)
 		}
-		dir := build([]string{pc.Pkg}, false)
-		bin := filepath.Join(dir, pkgBinName(pc.Pkg))
-		scratch, _ := os.MkdirTemp(filepath.Join(verifDir, ".work"), "self-")
-		var seeds []int64
-		for i := int64(0); i < 32; i++ {
-			seeds = append(seeds, 7_000_000+i)
-		}
-		ref := map[int64]string{}
-		bad := 0
-		execs := 0
-		for round, gmp := range []int{1, 4, 16, 1, 16} {
-			var mu sync.Mutex
-			var wg sync.WaitGroup
-			for p := 0; p < 4; p++ {
-				var part []int64
-				for i := p; i < len(seeds); i += 4 {
-					part = append(part, seeds[i])
-				}
-				wg.Add(1)
-				go func() {
-					defer wg.Done()
-					wo := runWorker(bin, job{Harness: pc.Harness, Prop: id, Tier: "quick", Seeds: part, Params: pc.Params}, scratch, gmp, 10*time.Minute)
-					mu.Lock()
-					defer mu.Unlock()
-					for _, l := range wo.lines {
-						execs++
-						if round == 0 {
-							ref[l.Spec.Seed] = l.TraceHash
-						} else if ref[l.Spec.Seed] != l.TraceHash {
-							bad++
-							fmt.Printf("selftest %s: seed %d differs at GOMAXPROCS=%d (%s vs %s)\n", id, l.Spec.Seed, gmp, l.TraceHash, ref[l.Spec.Seed])
-						}
-					}
-					if !wo.done {
-						bad++
-						fmt.Printf("selftest %s: worker died: %s\n", id, tail(wo.stderr, 2000))
-					}
-				}()
+		dir := build(pc.pkgs(), false)
+		for _, part := range pc.parts() {
+			part := part
+			bin := filepath.Join(dir, pkgBinName(part.Pkg))
+			scratch, _ := os.MkdirTemp(filepath.Join(verifDir, ".work"), "self-")
+			var seeds []int64
+			for i := int64(0); i < 32; i++ {
+				seeds = append(seeds, 7_000_000+i)
 			}
-			wg.Wait()
-		}
-		os.RemoveAll(scratch)
-		fmt.Printf("selftest %s: %d executions of %d seeds, %d mismatches\n", id, execs, len(seeds), bad)
-		if bad > 0 {
-			rc = 2
+			ref := map[int64]string{}
+			bad := 0
+			execs := 0
+			for round, gmp := range []int{1, 4, 16, 1, 16} {
+				var mu sync.Mutex
+				var wg sync.WaitGroup
+				for p := 0; p < 4; p++ {
+					var seedPart []int64
+					for i := p; i < len(seeds); i += 4 {
+						seedPart = append(seedPart, seeds[i])
+					}
+					wg.Add(1)
+					go func() {
+						defer wg.Done()
+						wo := runWorker(bin, job{Harness: part.Harness, Prop: id, Tier: "quick", Seeds: seedPart, Params: pc.Params}, scratch, gmp, 10*time.Minute)
+						mu.Lock()
+						defer mu.Unlock()
+						for _, l := range wo.lines {
+							execs++
+							if round == 0 {
+								ref[l.Spec.Seed] = l.TraceHash
+							} else if ref[l.Spec.Seed] != l.TraceHash {
+								bad++
+								fmt.Printf("selftest %s: seed %d differs at GOMAXPROCS=%d (%s vs %s)\n", id, l.Spec.Seed, gmp, l.TraceHash, ref[l.Spec.Seed])
+							}
+						}
+						if !wo.done {
+							bad++
+							fmt.Printf("selftest %s: worker died: %s\n", id, tail(wo.stderr, 2000))
+						}
+					}()
+				}
+				wg.Wait()
+			}
+			os.RemoveAll(scratch)
+			fmt.Printf("selftest %s/%s: %d executions of %d seeds, %d mismatches\n", id, part.Harness, execs, len(seeds), bad)
+			if bad > 0 {
+				rc = 2
+			}
 		}
 	}
 	return rc
@@ -1011,9 +1084,11 @@ func main() {
 		seen := map[string]bool{}
 		var pkgs []string
 		for _, p := range props {
-			if !seen[p.Pkg] {
-				seen[p.Pkg] = true
-				pkgs = append(pkgs, p.Pkg)
+			for _, pk := range p.pkgs() {
+				if !seen[pk] {
+					seen[pk] = true
+					pkgs = append(pkgs, pk)
+				}
 			}
 		}
 		sort.Strings(pkgs)
